@@ -9,9 +9,12 @@ META = {
             'entity kind; one evaluation = one post-request table dump joined '
             'for dangling references + the DELETE status rule; distinct = '
             '(refusal kind | cascade class) actually exercised with a '
-            'reference at stake'
+            'reference at stake; plus histories in which half of the writes '
+            'meet one injected database fault (no dangling reference '
+            'afterwards, whatever the answer)'
             ' plus a concurrent part: the C05-C07 scenario catalogue (and provider-tree races) run under the transaction-granularity scheduler, the same oracle evaluated on every committed state / committing step of every explored interleaving',
     'floors': {'refusals_due': 5, 'cascades_nontrivial': 1,
+               'faulted_requests': 100,
                'concurrent_states_checked': 100},
     'assumptions': ['SQLite backend', 'sequential histories + committed-'
                     'state sequences of transaction-level interleavings of '
@@ -35,6 +38,7 @@ def plan(tier, seed, scale):
     shards = histrun.plan_seeds(
         tier, seed, scale, 320, 6400, 20 if tier == 'quick' else 100,
         extra={'steps': 80 if tier == 'quick' else 100})
+    histrun.plan_faulted(shards, tier, seed, scale)
     n = max(1, int(len(CONC) * min(scale, 1)))
     for sh in conc.plan_scenarios(n, tier, seed, per=max(1, (n + 7) // 8)):
         sh['conc'] = True
@@ -53,9 +57,21 @@ def conc_shard(spec, res):
     conc.run_invariants('C08', CONC, spec, res, per_state=per_state)
 
 
+def fault_shard(spec, res):
+    def make_gen(rng):
+        gen = HistoryGen(rng, Names(rng), WEIGHTS)
+        gen.dup_list = True
+        return gen
+    histrun.run_faulted_histories(
+        'C08', spec, res, make_gen,
+        lambda d: [(k, str(x)) for k, x in monitors.c08_state(d)])
+
+
 def run_shard(spec, res):
     if spec.get('conc'):
         return conc_shard(spec, res)
+    if spec.get('faulted'):
+        return fault_shard(spec, res)
     svc = histrun.Service()
     try:
         for i in range(spec['first'], spec['first'] + spec['count']):
